@@ -22,8 +22,10 @@ RULE = ('One program from the typed generator G rendered twice under two '
         'Plus a fixed catalogue of spelling pairs (DEFtype letter ranges in '
         'every case combination, line numbers 0 / 65529 and names of any '
         'case as targets of RESTORE / GOSUB / GOTO / ON ERROR, >< =< =>, LET '
-        '/ CALL / NEXT var, keyword case), each compared with the first '
-        'spelling of its group.')
+        '/ CALL / NEXT var, keyword case, identifiers that begin with a '
+        'keyword as first token of a line / after a colon / after LET or '
+        'CALL, array parameters in every declaration form and letter case), '
+        'each compared with the first spelling of its group.')
 ASSUMPTIONS = ['the renderer only applies the rewritings the property lists '
                '(string literals, DATA text and comments are never altered)']
 CONFIGS = ((0, False), (2, True))
@@ -214,6 +216,36 @@ def spelling_groups():
         'print X\nsub S (V)\nv = V * 2\nend sub\n',
         "x = 1 ' c\n\nFOR i = 1 TO 2 ' c\n   x = x + i\n\nNEXT\n s x\n"
         "PRINT x\n\nSUB s (v)\n' only a comment\nv = v * 2\nEND SUB\n"]))
+    # identifiers that merely begin with a keyword, as the first token of a
+    # line, after a colon, and after LET / CALL; as variables, SUB names and
+    # labels
+    for k in ('rem', 'end', 'for', 'if', 'to', 'next', 'or', 'and', 'not',
+              'mod', 'let', 'dim', 'call', 'sub', 'as', 'then', 'else',
+              'goto', 'data', 'print', 'input', 'do', 'loop', 'case', 'on',
+              'read', 'step', 'type', 'def', 'wend', 'exit', 'const'):
+        v = k + 'ainder'
+        groups.append(('keyword_prefixed_name:' + k, [
+            'LET {0} = 5: LET zq = {0} + 1: PRINT {0}; zq\nCALL {0}s(2)\n'
+            'GOTO {0}lab\nPRINT "skipped"\n{0}lab: PRINT "at label"\nEND\n'
+            'SUB {0}s (p)\nPRINT "in sub"; p\nEND SUB\n'.format(v),
+            '{0} = 5\nzq = {0} + 1\nPRINT {0}; zq\n{0}s 2\n'
+            'GOTO {0}lab\nPRINT "skipped"\n{0}lab:\nPRINT "at label"\nEND\n'
+            'SUB {0}s (p)\nPRINT "in sub"; p\nEND SUB\n'.format(v),
+            'zq = 0: {0} = 5: zq = {0} + 1: PRINT {0}; zq: {0}s 2\n'
+            'GOTO lb7\nPRINT "skipped"\nlb7: PRINT "at label"\nEND\n'
+            'SUB {0}s (p)\nPRINT "in sub"; p\nEND SUB\n'.format(v),
+            '{1} = 5\nzq = {0} + 1\nPRINT {1}; zq\n{1}S 2\n'
+            'GOTO {1}LAB\nPRINT "skipped"\n{0}lab:\nPRINT "at label"\nEND\n'
+            'SUB {0}s (p)\nPRINT "in sub"; p\nEND SUB\n'.format(
+                v, v.upper())]))
+    # array parameters in every declaration form and letter case
+    for form in ('{0}()', '{0}!()', '{0}() AS SINGLE'):
+        groups.append(('array_parameter_case:' + form, [
+            'DIM a(2)\na(1) = 7\nCALL total(a(), 2)\n'
+            'SUB total (%s, n&)\nPRINT {1}(1); n&\nEND SUB\n'
+            .replace('%s', form).format(nm, ref)
+            for nm, ref in (('values', 'values'), ('Values', 'values'),
+                            ('VALUES', 'Values'), ('values', 'VALUES'))]))
     groups.append(('keyword_case', [
         t for t in (
             'DIM a(3) AS INTEGER\nSELECT CASE 2\nCASE 1 TO 3\na(1) = 5\n'
